@@ -26,6 +26,9 @@ type Engine struct {
 	RepoDir    string
 	LoadSecs   float64
 
+	nativeMu   sync.Mutex
+	nativeRuns map[string]*NativeResult
+
 	// options
 	FeasBackend     Backend
 	FeasTimeoutMs   int
